@@ -14,6 +14,7 @@ def hook(pid):
 
 
 def run(pid, tier, seed):
+    _load(pid)
     out = {}
     for f in HOOKS.get(pid, []):
         r = f(tier, seed) or {}
@@ -27,17 +28,14 @@ def run(pid, tier, seed):
     return out
 
 
-def _load():
+def _load(pid=None):
+    """Import the hook module(s) of one property only (vcheck/hooks/<pid>.py and <pid>_*.py): a slow or broken
+    hook file of another property must not affect this check."""
     import importlib
     import pkgutil
 
     import vcheck.hooks as H
 
     for m in pkgutil.iter_modules(H.__path__):
-        importlib.import_module("vcheck.hooks." + m.name)
-
-
-try:
-    _load()
-except ModuleNotFoundError:
-    pass
+        if pid is None or m.name == pid.lower() or m.name.startswith(pid.lower() + "_"):
+            importlib.import_module("vcheck.hooks." + m.name)
